@@ -131,6 +131,8 @@ pub(crate) fn derive_struct_diff_struct(struct_: &Struct) -> TokenStream {
         .enumerate()
         .for_each(|(index, field)| {
             let field_name = field.field_name.as_ref().unwrap();
+            // raw identifiers (`r#type`) cannot be spliced into longer identifiers
+            let field_ident = field_name.trim_start_matches("r#");
             used_generics.extend(struct_.generics.iter().filter(|x| x.full() == field.ty.ident.path(&field.ty, false)));
 
             let to_add = struct_.generics.iter().filter(|x| field.ty.wraps().iter().find(|&wrapped_type| &x.full() == wrapped_type ).is_some());
@@ -204,7 +206,7 @@ pub(crate) fn derive_struct_diff_struct(struct_: &Struct) -> TokenStream {
                         },
                         (true, (_, false, None)) | (false, (true, false, None)) => {
                             l!(setters_body, "\n/// Setter generated by StructDiff. Use to set the {} field and generate a diff if necessary", field_name);
-                            l!(setters_body, "\npub fn set_{}_with_diff(&mut self, value: {}) -> Option<<Self as StructDiff>::Diff> {{", field_name, field.ty.full());
+                            l!(setters_body, "\npub fn set_{}_with_diff(&mut self, value: {}) -> Option<<Self as StructDiff>::Diff> {{", field_ident, field.ty.full());
                             l!(setters_body, "\n\tif self.{} == value {{return None}};", field_name);
                             l!(setters_body, "\n\tlet diff = <Self as StructDiff>::Diff::{}(value.clone());", field_name);
                             l!(setters_body, "\n\tself.{} = value;", field_name);
@@ -269,7 +271,7 @@ pub(crate) fn derive_struct_diff_struct(struct_: &Struct) -> TokenStream {
                         },
                         (true, (_, false, None)) | (false, (true, false, None)) => {
                             l!(setters_body, "\n/// Setter generated by StructDiff. Use to set the {} field and generate a diff if necessary", field_name);
-                            l!(setters_body, "\npub fn set_{}_with_diff(&mut self, value: {}) -> Option<<Self as StructDiff>::Diff> {{", field_name, field.ty.full());
+                            l!(setters_body, "\npub fn set_{}_with_diff(&mut self, value: {}) -> Option<<Self as StructDiff>::Diff> {{", field_ident, field.ty.full());
                             l!(setters_body, "\n\tif self.{} == value {{return None}};", field_name);
                             l!(setters_body, "\n\tlet diff = <Self as StructDiff>::Diff::{}(value.clone());", field_name);
                             l!(setters_body, "\n\tself.{} = value;", field_name);
@@ -280,9 +282,9 @@ pub(crate) fn derive_struct_diff_struct(struct_: &Struct) -> TokenStream {
                     };
                 },
                 (true, None, false)  => { // Recurse inwards and generate a Vec<SubStructDiff> instead of cloning the entire thing
-                    let typename = format!("__{}StructDiffVec", field_name);
+                    let typename = format!("__{}StructDiffVec", field_ident);
                     l!(owned_type_aliases, "///Generated aliases from StructDiff\n type {} = Vec<<{} as StructDiff>::Diff>;", typename, field.ty.full());
-                    let typename_ref = format!("__{}StructDiffRefVec<'__diff_target>", field_name);
+                    let typename_ref = format!("__{}StructDiffRefVec<'__diff_target>", field_ident);
                     l!(ref_type_aliases, "///Generated aliases from StructDiff\n type {} = Vec<<{} as StructDiff>::DiffRef<'__diff_target>>;", typename_ref, field.ty.full());
 
                     l!(diff_enum_body, " {}({}),", field_name, typename);
@@ -341,7 +343,7 @@ pub(crate) fn derive_struct_diff_struct(struct_: &Struct) -> TokenStream {
                         },
                         (true, (_, false, None)) | (false, (true, false, None)) => {
                             l!(setters_body, "\n/// Setter generated by StructDiff. Use to set the {} field and generate a diff if necessary", field_name);
-                            l!(setters_body, "\npub fn set_{}_with_diff(&mut self, value: {}) -> Option<<Self as StructDiff>::Diff> {{", field_name, field.ty.full());
+                            l!(setters_body, "\npub fn set_{}_with_diff(&mut self, value: {}) -> Option<<Self as StructDiff>::Diff> {{", field_ident, field.ty.full());
                             l!(setters_body, "\n\tif self.{} == value {{return None}};", field_name);
                             l!(setters_body, "\n\tlet diff = <Self as StructDiff>::Diff::{}(self.{}.diff(&value));", field_name, field_name);
                             l!(setters_body, "\n\tself.{} = value;", field_name);
@@ -352,13 +354,13 @@ pub(crate) fn derive_struct_diff_struct(struct_: &Struct) -> TokenStream {
                     };
                 },
                 (true, None, true)  => { // Recurse inwards and generate an Option<Vec<SubStructDiff>> instead of cloning the entire thing
-                    let typename = format!("__{}StructDiffVec", field_name);
+                    let typename = format!("__{}StructDiffVec", field_ident);
                     l!(owned_type_aliases, "///Generated aliases from StructDiff\n type {} = Vec<<{} as StructDiff>::Diff>;", 
                         typename,
                         field.ty.wraps.as_ref().expect("Option must wrap a type").get(0).expect("Option must wrap a type").full()
                     );
 
-                    let ref_typename = format!("__{}StructDiffRefVec<'__diff_target>", field_name);
+                    let ref_typename = format!("__{}StructDiffRefVec<'__diff_target>", field_ident);
                     l!(
                         ref_type_aliases,
                         "///Generated aliases from StructDiff\n type {} = Vec<<{} as StructDiff>::DiffRef<'__diff_target>>;", 
@@ -367,10 +369,10 @@ pub(crate) fn derive_struct_diff_struct(struct_: &Struct) -> TokenStream {
                     );
 
                     l!(diff_enum_body, " {}(Option<{}>),", field_name, typename);
-                    l!(diff_enum_body, " {}_full({}),", field_name, field.ty.wraps.as_ref().expect("Option must wrap a type").get(0).expect("Option must wrap a type").full());
+                    l!(diff_enum_body, " {}_full({}),", field_ident, field.ty.wraps.as_ref().expect("Option must wrap a type").get(0).expect("Option must wrap a type").full());
 
                     l!(diff_ref_enum_body, " {}(Option<{}>),", field_name, ref_typename);
-                    l!(diff_ref_enum_body, " {}_full(&'__diff_target {}),", field_name, field.ty.wraps.as_ref().expect("Option must wrap a type").get(0).expect("Option must wrap a type").full());
+                    l!(diff_ref_enum_body, " {}_full(&'__diff_target {}),", field_ident, field.ty.wraps.as_ref().expect("Option must wrap a type").get(0).expect("Option must wrap a type").full());
 
                     let apply_single_body_partial = format!(
                         "Self::Diff::{}(Some(__{})) => if let Some(ref mut inner) = self.{} {{ 
@@ -385,7 +387,7 @@ pub(crate) fn derive_struct_diff_struct(struct_: &Struct) -> TokenStream {
 
                     let apply_single_body_full = format!(
                         "Self::Diff::{}_full(__{}) => self.{} = Some(__{}),",
-                        field_name,
+                        field_ident,
                         index,
                         field_name,
                         index
@@ -408,7 +410,7 @@ pub(crate) fn derive_struct_diff_struct(struct_: &Struct) -> TokenStream {
                         field_name,
                         field_name,
                         field_name,
-                        field_name
+                        field_ident
                     );
 
                     let diff_body_fragment_ref = format!(
@@ -422,7 +424,7 @@ pub(crate) fn derive_struct_diff_struct(struct_: &Struct) -> TokenStream {
                         field_name,
                         field_name,
                         field_name,
-                        field_name
+                        field_ident
                     );
 
                     #[cfg(feature = "generated_setters")]
@@ -453,7 +455,7 @@ pub(crate) fn derive_struct_diff_struct(struct_: &Struct) -> TokenStream {
                             },
                             (true, (_, false, None)) | (false, (true, false, None)) => {
                                 l!(setters_body, "\n/// Setter generated by StructDiff. Use to set the {} field and generate a diff if necessary", field_name);
-                                l!(setters_body, "\npub fn set_{}_with_diff(&mut self, value: {}) -> Option<<Self as StructDiff>::Diff> {{", field_name, field.ty.full());
+                                l!(setters_body, "\npub fn set_{}_with_diff(&mut self, value: {}) -> Option<<Self as StructDiff>::Diff> {{", field_ident, field.ty.full());
                                 l!(setters_body, "\n\tif self.{} == value {{return None}};", field_name);
                                 l!(setters_body, "\n\tlet diff = {}", diff_body_fragment_setter);
                                 l!(setters_body, "\n\tself.{} = value;", field_name);
@@ -477,9 +479,9 @@ pub(crate) fn derive_struct_diff_struct(struct_: &Struct) -> TokenStream {
                         ref_into_owned_body,
                         "\t {}Ref::{}_full(v) => {}::{}_full(v.clone()),",
                         enum_name,
-                        field_name,
+                        field_ident,
                         enum_name,
-                        field_name
+                        field_ident
                     );
 
                     l!(apply_single_body, "{}", apply_single_body_partial);
@@ -597,7 +599,7 @@ pub(crate) fn derive_struct_diff_struct(struct_: &Struct) -> TokenStream {
                             },
                             (true, (_, false, None)) | (false, (true, false, None)) => {
                                 l!(setters_body, "\n/// Setter generated by StructDiff. Use to set the {} field and generate a diff if necessary", field_name);
-                                l!(setters_body, "\npub fn set_{}_with_diff(&mut self, value: {}) -> Option<<Self as StructDiff>::Diff> {{", field_name, field.ty.full());
+                                l!(setters_body, "\npub fn set_{}_with_diff(&mut self, value: {}) -> Option<<Self as StructDiff>::Diff> {{", field_ident, field.ty.full());
                                 l!(setters_body, "\n\tlet ret = structdiff::collections::unordered_map_like_recursive::unordered_hashcmp(self.{}.iter(), value.iter(), true).map(|x| <Self as StructDiff>::Diff::{}(x.into()));", field_name, field_name);
                                 l!(setters_body, "\n\tself.{} = value;", field_name);
                                 l!(setters_body, "\n\tret");
@@ -671,7 +673,7 @@ pub(crate) fn derive_struct_diff_struct(struct_: &Struct) -> TokenStream {
                             },
                             (true, (_, false, None)) | (false, (true, false, None)) => {
                                 l!(setters_body, "\n/// Setter generated by StructDiff. Use to set the {} field and generate a diff if necessary", field_name);
-                                l!(setters_body, "\npub fn set_{}_with_diff(&mut self, value: {}) -> Option<<Self as StructDiff>::Diff> {{", field_name, field.ty.full());
+                                l!(setters_body, "\npub fn set_{}_with_diff(&mut self, value: {}) -> Option<<Self as StructDiff>::Diff> {{", field_ident, field.ty.full());
                                 l!(setters_body, "\n\tlet ret = structdiff::collections::ordered_array_like::hirschberg(&value, &self.{}).map(|x| <Self as StructDiff>::Diff::{}(x.into()));", field_name, field_name);
                                 l!(setters_body, "\n\tself.{} = value;", field_name);
                                 l!(setters_body, "\n\tret");
@@ -739,7 +741,7 @@ pub(crate) fn derive_struct_diff_struct(struct_: &Struct) -> TokenStream {
                             },
                             (true, (_, false, None)) | (false, (true, false, None)) => {
                                 l!(setters_body, "\n/// Setter generated by StructDiff. Use to set the {} field and generate a diff if necessary", field_name);
-                                l!(setters_body, "\npub fn set_{}_with_diff(&mut self, value: {}) -> Option<<Self as StructDiff>::Diff> {{", field_name, field.ty.full());
+                                l!(setters_body, "\npub fn set_{}_with_diff(&mut self, value: {}) -> Option<<Self as StructDiff>::Diff> {{", field_ident, field.ty.full());
                                 l!(setters_body, "\n\tlet ret = structdiff::collections::unordered_array_like::unordered_hashcmp(self.{}.iter(), value.iter()).map(|x| <Self as StructDiff>::Diff::{}(x.into()));", field_name, field_name);
                                 l!(setters_body, "\n\tself.{} = value;", field_name);
                                 l!(setters_body, "\n\tret");
@@ -809,7 +811,7 @@ pub(crate) fn derive_struct_diff_struct(struct_: &Struct) -> TokenStream {
                                 },
                                 (true, (_, false, None)) | (false, (true, false, None)) => {
                                     l!(setters_body, "\n/// Setter generated by StructDiff. Use to set the {} field and generate a diff if necessary", field_name);
-                                    l!(setters_body, "\npub fn set_{}_with_diff(&mut self, value: {}) -> Option<<Self as StructDiff>::Diff> {{", field_name, field.ty.full());
+                                    l!(setters_body, "\npub fn set_{}_with_diff(&mut self, value: {}) -> Option<<Self as StructDiff>::Diff> {{", field_ident, field.ty.full());
                                     l!(setters_body, "\n\tlet ret = structdiff::collections::unordered_map_like::unordered_hashcmp(self.{}.iter(), value.iter(), true).map(|x| <Self as StructDiff>::Diff::{}(x.into()));", field_name, field_name);
                                     l!(setters_body, "\n\tself.{} = value;", field_name);
                                     l!(setters_body, "\n\tret");
@@ -878,7 +880,7 @@ pub(crate) fn derive_struct_diff_struct(struct_: &Struct) -> TokenStream {
                                 },
                                 (true, (_, false, None)) | (false, (true, false, None)) => {
                                     l!(setters_body, "\n/// Setter generated by StructDiff. Use to set the {} field and generate a diff if necessary", field_name);
-                                    l!(setters_body, "\npub fn set_{}_with_diff(&mut self, value: {}) -> Option<<Self as StructDiff>::Diff> {{", field_name, field.ty.full());
+                                    l!(setters_body, "\npub fn set_{}_with_diff(&mut self, value: {}) -> Option<<Self as StructDiff>::Diff> {{", field_ident, field.ty.full());
                                     l!(setters_body, "\n\tlet ret = structdiff::collections::unordered_map_like::unordered_hashcmp(self.{}.iter(), value.iter(), false).map(|x| <Self as StructDiff>::Diff::{}(x.into()));", field_name, field_name);
                                     l!(setters_body, "\n\tself.{} = value;", field_name);
                                     l!(setters_body, "\n\tret");
